@@ -333,7 +333,6 @@ pub fn check_built_edges(
         while b < N {
             if b < n && conflict(&fx[a], &fx[b]) {
                 vassert!(p[a][b] || p[b][a], "C11: conflicting functions not joined by a path");
-                vassert!(p[a][b] || p[b][a], "C01: conflicting functions are not ordered by any path of the built graph and may run together");
                 if !up[a][b] && !up[b][a] {
                     // a < b: equal rank -> a first
                     let a_first = want[a] <= want[b];
